@@ -134,6 +134,32 @@ class Runner:
                 self.fail('completion-not-reported-everywhere', f"run {sorted(missing)[0]} completed somewhere but {i.name} never reported it")
                 return
 
+    # ---- recovery oracle (C07), evaluated at quiescence ----
+    def check_restarted(self, tag='not-converged'):
+        """every instance that was restarted holds, for each run key on which the other live instances agree, exactly what
+        they hold.  (Where the others disagree among themselves the cause is what the lost process had told only some
+        of them before it died -- its outgoing queue and backlogs die with it -- and no recovery protocol can decide
+        that for the restarted instance; agreement among instances that never crashed is C04/C06.)"""
+        live = self.c.live()
+        if not any(self.c.gens[i.name] > 0 for i in live):
+            return self.check_converged(tag)
+        pos = {i.name: i.positions() for i in live}
+        for x in live:
+            if self.c.gens[x.name] == 0:
+                continue
+            others = [pos[i.name] for i in live if i is not x]
+            if not others:
+                continue
+            keys = set(pos[x.name])
+            for o in others:
+                keys |= set(o)
+            for k in sorted(keys):
+                vals = {o.get(k) for o in others}
+                if len(vals) == 1 and pos[x.name].get(k) != next(iter(vals)):
+                    self.fail(tag, f"at quiescence the restarted instance {x.name} holds run {k} at {pos[x.name].get(k)} "
+                                   f"but every other live instance holds it at {next(iter(vals))}")
+                    return
+
     def do(self, op: str):
         w = op.split()
         c = self.c
